@@ -88,8 +88,12 @@ func ValidateAggregateAndProof(ctx context.Context, signedAgg *phase0.SignedAggr
 		} else if !inSubtree {
 			return nil, GossipValidatorResult{IGNORE, errors.New("block not in subtree of finalized root")}
 		}
-	} else if fin.Epoch > att.Data.Target.Epoch {
-		return nil, GossipValidatorResult{REJECT, errors.New("cannot vote for finalized root as target")}
+	} else if finRef, ok := ch.ByBlock(fin.Root); !ok {
+		return nil, GossipValidatorResult{IGNORE, errors.New("unknown finalized block")}
+	} else if spec.SlotToEpoch(finRef.Step().Slot()) > att.Data.Target.Epoch {
+		// The finalized block may be older than the start of the finalized epoch (empty slots):
+		// compare the target with the epoch of the block itself, not with the finalized epoch.
+		return nil, GossipValidatorResult{REJECT, errors.New("cannot vote for finalized root with an older target")}
 	}
 
 	// 3 combined steps:
